@@ -254,7 +254,7 @@ Proof.
   intros Hok Hfind [Hsd [Hty Hdir]] Hpos.
   unfold model_ok in Hok.
   apply Bool.andb_true_iff in Hok as [Hok Hdesc]. apply Bool.andb_true_iff in Hok as [Hok Hroots].
-  apply Bool.andb_true_iff in Hok as [Hok Himpl]. apply Bool.andb_true_iff in Hok as [Hnd_dirs Hshadow].
+  apply Bool.andb_true_iff in Hok as [Hnd_dirs Himpl].
   unfold dirs_ok in Hnd_dirs.
   exists (json_schema types M). split; [apply json_route_introspect_of|].
   set (Sj := json_schema types M). set (Ss := ast_to_type_system D).
@@ -278,48 +278,48 @@ Proof.
       unfold Sj, json_schema. cbn [sc_desc]. destruct (m_desc M); [discriminate|reflexivity].
   - (* root operation types *)
     intros op. rewrite !root_type_def.
-    assert (Hj : root_name Sj op = Some (match model_root_names M op with Some n => n | None => default_root_name op end)).
-    { unfold root_name, Sj, json_schema. cbn [sc_roots npos nval dnode pbuiltin pos0 negb].
+    (* the JSON route states a query root, so its roots are explicit: only declared roots count *)
+    assert (Hj : root_name Sj op = model_root_names M op).
+    { unfold root_name, roots_explicit, Sj, json_schema. cbn [sc_roots npos nval dnode r_query].
       destruct op; cbn [declared_root r_query r_mutation r_subscription model_root_names];
         try destruct (m_mutation M); try destruct (m_subscription M); reflexivity. }
     rewrite Hj.
     unfold roots_ok in Hroots. apply Bool.andb_true_iff in Hroots as [Hroots Hrs]. apply Bool.andb_true_iff in Hroots as [Hrq Hrm].
+    assert (Hplain : forall n, model_root_names M op = Some n -> plain_name n = true).
+    { intros n Hm. destruct op; cbn [model_root_names] in Hm; [injection Hm as <-; assumption| |].
+      - rewrite Hm in Hrm. assumption.
+      - rewrite Hm in Hrs. assumption. }
     destruct (m_explicit M) eqn:Hex.
     + destruct (sdl_roots_explicit M D Hex Hsd Hpos) as [_ [Hb Hn]]. fold Ss in Hb, Hn.
       assert (Hs : root_name Ss op = model_root_names M op).
-      { unfold root_name. rewrite Hb. cbn [negb]. specialize (Hn op). unfold root_names in Hn.
+      { unfold root_name, roots_explicit. rewrite Hb. cbn [negb orb]. specialize (Hn op). unfold root_names in Hn.
         destruct (declared_root (nval (sc_roots Ss)) op) as [x|]; cbn [option_map] in Hn; rewrite <- Hn; reflexivity. }
-      rewrite Hs. destruct (model_root_names M op) as [n|] eqn:Hm.
-      * assert (Hp : plain_name n = true).
-        { destruct op; cbn [model_root_names] in Hm; [injection Hm as <-; assumption| |].
-          - rewrite Hm in Hrm. assumption.
-          - rewrite Hm in Hrs. assumption. }
-        now rewrite (Hsome n Hp).
-      * (* not declared: the default name is not a type of M *)
-        assert (Hnone : get_type Sj (default_root_name op) = None).
-        { unfold Sj. rewrite get_type_json, (Hfind _ (vis_plain M _ (default_root_plain op))), find_mtype_app, find_mtype_builtin.
-          unfold no_shadow_root in Hshadow. rewrite Hex in Hshadow. cbn [negb orb] in Hshadow.
-          apply Bool.andb_true_iff in Hshadow as [Hsm Hss].
-          destruct op; cbn [model_root_names] in Hm; [discriminate| |].
-          - rewrite Hm in Hsm. apply Bool.negb_true_iff in Hsm. rewrite <- find_mtype_mem in Hsm.
-            cbn [default_root_name]. destruct (find_mtype (s "Mutation") (m_types M)); [discriminate|reflexivity].
-          - rewrite Hm in Hss. apply Bool.negb_true_iff in Hss. rewrite <- find_mtype_mem in Hss.
-            cbn [default_root_name]. destruct (find_mtype (s "Subscription") (m_types M)); [discriminate|reflexivity]. }
-        rewrite Hnone. reflexivity.
+      rewrite Hs. destruct (model_root_names M op) as [n|] eqn:Hm; [|reflexivity].
+      now rewrite (Hsome n (Hplain n eq_refl)).
     + destruct (sdl_roots_implicit M D Hex Hsd) as [_ Hr]. fold Ss in Hr.
       assert (Hs : root_name Ss op = Some (default_root_name op)).
-      { unfold root_name. rewrite Hr. destruct op; reflexivity. }
+      { unfold root_name, roots_explicit. rewrite Hr. destruct op; reflexivity. }
       rewrite Hs.
-      assert (Hsame : match model_root_names M op with Some n => n | None => default_root_name op end = default_root_name op).
-      { unfold implicit_roots_ok in Himpl. rewrite Hex in Himpl. cbn [orb] in Himpl.
-        apply Bool.andb_true_iff in Himpl as [Himpl Hs3]. apply Bool.andb_true_iff in Himpl as [Hq Hm].
-        destruct op; cbn [model_root_names default_root_name].
-        - now apply str_eqb_eq.
-        - destruct (m_mutation M) as [x|]; [|reflexivity].
-          destruct (mem_str (s "Mutation") (map mt_name (m_types M))); cbn [option_eqb] in Hm; [now apply str_eqb_eq|discriminate].
-        - destruct (m_subscription M) as [x|]; [|reflexivity].
-          destruct (mem_str (s "Subscription") (map mt_name (m_types M))); cbn [option_eqb] in Hs3; [now apply str_eqb_eq|discriminate]. }
-      rewrite Hsame, (Hsome _ (default_root_plain op)). reflexivity.
+      unfold implicit_roots_ok in Himpl. rewrite Hex in Himpl. cbn [orb] in Himpl.
+      apply Bool.andb_true_iff in Himpl as [Himpl Hs3]. apply Bool.andb_true_iff in Himpl as [Hq Hm].
+      (* a root the model does not have: the type with the default name does not exist on either route *)
+      assert (Habsent : mem_str (default_root_name op) (map mt_name (m_types M)) = false ->
+                        is_some (get_type Ss (default_root_name op)) = false).
+      { intros Hmem. rewrite <- (Hsome _ (default_root_plain op)). unfold Sj.
+        rewrite get_type_json, (Hfind _ (vis_plain M _ (default_root_plain op))), find_mtype_app, find_mtype_builtin.
+        rewrite <- find_mtype_mem in Hmem. destruct (find_mtype (default_root_name op) (m_types M)); [discriminate|].
+        destruct op; reflexivity. }
+      destruct op; cbn [model_root_names].
+      * apply str_eqb_eq in Hq. rewrite Hq. change (s "Query") with (default_root_name Query).
+        now rewrite (Hsome _ (default_root_plain Query)).
+      * change (s "Mutation") with (default_root_name Mutation) in Hm.
+        destruct (mem_str (default_root_name Mutation) (map mt_name (m_types M))) eqn:Hmem; destruct (m_mutation M) as [x|]; cbn [option_eqb] in Hm; try discriminate.
+        -- apply str_eqb_eq in Hm. subst x. now rewrite (Hsome _ (default_root_plain Mutation)).
+        -- now rewrite (Habsent eq_refl).
+      * change (s "Subscription") with (default_root_name Subscription) in Hs3.
+        destruct (mem_str (default_root_name Subscription) (map mt_name (m_types M))) eqn:Hmem; destruct (m_subscription M) as [x|]; cbn [option_eqb] in Hs3; try discriminate.
+        -- apply str_eqb_eq in Hs3. subst x. now rewrite (Hsome _ (default_root_plain Subscription)).
+        -- now rewrite (Habsent eq_refl).
   - exact Htypes.
   - (* directives *)
     intros n. unfold Ss. rewrite (get_directive_doc_equiv D (sdl_doc M) n (Hdir n)).
